@@ -872,6 +872,18 @@ func (k *Kernel) WriteFile(path string, data []byte) {
 	k.syncAll()
 }
 
+// WriteFileVolatile creates path durably as an EMPTY file and then writes data
+// without flushing it: what a process leaves behind that wrote a file and died
+// before its fsync, on a machine that stayed up.
+func (k *Kernel) WriteFileVolatile(path string, data []byte) {
+	k.WriteFile(path, nil)
+	in, e := k.lookup(atFDCWD, path)
+	if e != 0 {
+		panic(fmt.Sprintf("simunix.WriteFileVolatile %s: %v", path, e))
+	}
+	k.writeAt(in, data, 0)
+}
+
 // MkdirAll creates a directory (one level) durably.
 func (k *Kernel) Mkdir(path string) {
 	if e := k.mkdirat(atFDCWD, path); e != 0 && e != syscall.EEXIST {
